@@ -105,3 +105,4 @@ Definition fcl2m_case_premise (c : fcl2m_case) : bool :=
   && capa_trace_finite F64_tiny (l2ScFM (h2_cols c)) (l2SpFM (h2_cols c)) (h2_ac c) (h2_ap c) z z (h2_m c) (h2_M c) (h2_m c - 1) (h2_n c)
   && capa_mag_ok F64_tiny (l2ScFM (h2_cols c)) (l2SpFM (h2_cols c)) (h2_ac c) (h2_ap c) z z (h2_m c) (h2_M c) (h2_m c - 1) (h2_n c) (h2_mag c)
   && sav_agg_mag_ok (h2_cols c) (h2_n c) (h2_mag c) && l2_absmax_ok_cols (h2_cols c) (h2_b c).
+
